@@ -92,7 +92,9 @@ func (t *Tape) Draw(label string, n int) int {
 }
 
 // Bool draws a coin that is true with probability 1/oneIn (false is benign).
-func (t *Tape) Bool(label string, oneIn int) bool { return t.Draw(label, oneIn) == oneIn-1 && oneIn > 1 }
+func (t *Tape) Bool(label string, oneIn int) bool {
+	return t.Draw(label, oneIn) == oneIn-1 && oneIn > 1
+}
 
 // Pick draws an index into a list of k alternatives.
 func (t *Tape) Pick(label string, k int) int { return t.Draw(label, k) }
